@@ -86,3 +86,29 @@ def grids(tier, seed):
                 g.append({c: rnd.choice(vals)[1] for c in cols if rnd.random() < 0.8})
             yield ('random/%s' % ver, g)
         yield ('norows/%s' % ver, grid_of([], ver))
+
+
+def fixed_offset_history():
+    """date-times sharing ONE fixed-offset tzinfo object across seasons: the Haystack zone that fits depends on the date"""
+    import datetime as dt
+    out = []
+    for hours in (9.5, -10, -9, -8, 11, 10.5):
+        tz = dt.timezone(dt.timedelta(hours=hours))
+        out.append([dt.datetime(2016, 7, 15, 12, 0, tzinfo=tz), dt.datetime(2016, 1, 15, 12, 0, tzinfo=tz), dt.datetime(2016, 7, 16, 12, 0, tzinfo=tz)])
+    return out
+
+
+def stamp_consistent(iso, zone_name):
+    """the written pair (ISO stamp with offset, Haystack zone name): the named zone has that offset at that instant.
+    Independent of hszinc: the Olson zone is found in pytz by its last path component."""
+    import datetime as dt
+    import pytz
+    import iso8601
+    d = iso8601.parse_date(iso)
+    cands = [z for z in pytz.all_timezones if z == zone_name or z.split('/', 1)[-1] == zone_name]
+    if not cands:
+        return 'zone %r is not an Olson zone' % zone_name
+    for z in cands:
+        if d.astimezone(pytz.timezone(z)).utcoffset() == d.utcoffset():
+            return None
+    return 'stamp %s names zone %s whose offset at that instant is %s' % (iso, zone_name, d.astimezone(pytz.timezone(cands[0])).utcoffset())
